@@ -173,8 +173,10 @@ def gen_steps():
     mt = fn_body(db, r"pub\(crate\) fn meta\(&self\) -> Result<Meta> \{", "DBInner::meta")
     if not re.search(r"if meta1\.tx_id > meta2\.tx_id \{\s*Some\(meta1\)\s*\} else \{\s*Some\(meta2\)", mt):
         raise GenError("DBInner::meta: header choice is no longer `meta1.tx_id > meta2.tx_id ? meta1 : meta2`")
-    if not re.search(r"match \(meta1\.valid\(\), meta2\.valid\(\)\)", mt):
-        raise GenError("DBInner::meta: no longer matches on (meta1.valid(), meta2.valid())")
+    if len(re.findall(r"\.\$func\(\)\s*\.filter\(\|m\| m\.valid\(\)\)", mt)) != 2 or not re.search(r"match \(meta1, meta2\)", mt):
+        raise GenError("DBInner::meta: both slots must be filtered by valid() before the choice")
+    if "check_meta!(try_meta)" not in mt or "check_meta!(try_old_meta)" not in mt:
+        raise GenError("DBInner::meta: slots must be read through try_meta / try_old_meta (page type checked, not asserted)")
 
     def lst(xs):
         return "[" + ", ".join("." + x for x in xs) + "]"
